@@ -120,6 +120,7 @@ def run(db, chk) -> None:
     chk.floor("C18.R2-selection-only", 20)
     _predicates(db, chk, m, preds, DFb)
     _composite(db, chk, m)
+    _constructors(db, chk, m)
     _string_detection(db, chk)
     _table_precedence(db, chk, m)
     for q, f_ in m.functions.items():
@@ -334,3 +335,33 @@ def _table_precedence(db, chk, m):
         chk.ob(rule, f"{cls}: when a table is passed with the frame, ids are decoded with THAT table (a table held by the filter is only the fallback)", verdict, m.loc(call.node), found=sorted(uses) or "no table-dependent predicate seen",
                accepted="call-time table", why="`self.symbol_table or symbol_table` lets a filter built for trace X decode the ids of trace Y with X's table: unrelated names are selected")
     chk.floor(rule, 1)
+
+
+def _constructors(db, chk, m):
+    """the predicate analysed above is parameterised by the filter's attributes: the constructors hand the caller's values over unchanged (one integer becomes
+    a one-element list, a list is kept as it is - negative numbers such as the 'outside every step' marker -1 and the value 0 included)"""
+    rule = "C18.R8-constructor-keeps-values"
+    table = {"IterationFilter": "iterations", "IterationIndexFilter": "iteration_index", "RankFilter": "ranks"}
+    n = 0
+    for cls, attr in table.items():
+        init = m.functions.get(f"{cls}.__init__")
+        if init is None:
+            chk.ob(rule, f"{cls}.__init__ found", None, TF, found="inherited / absent")
+            continue
+        ps = [p_ for p_ in H.param_names(init) if p_ != "self"]
+        if len(ps) != 1:
+            chk.ob(rule, f"{cls}.__init__ takes the selection as its one argument", None, m.loc(init), found=ps)
+            continue
+        for val, want in ((7, [7]), (0, [0]), (-1, [-1]), ([-1, 0, 7, 7], [-1, 0, 7, 7])):
+            I = Interp(db)
+            selfo = Obj("self", cls=(m, cls))
+            runs = [r for r in I.explore(f"{TF}:{cls}.__init__", lambda I: {"self": selfo, ps[0]: list(val) if isinstance(val, list) else val}) if r.raised is None]
+            n += 1
+            if len(runs) != 1:
+                chk.ob(rule, f"{cls}({val!r}): one normal path", None, m.loc(init), found=len(runs))
+                continue
+            got = runs[0].env["self"].attrs.get(attr) if isinstance(runs[0].env.get("self"), Obj) else None
+            conc = got if isinstance(got, list) and all(isinstance(x, int) for x in got) else None
+            chk.ob(rule, f"{cls}({val!r}) selects by exactly the given value(s)", (conc == want) if conc is not None else None, m.loc(init), found=conc if conc is not None else T.show(to_term(got))[:100], accepted=want,
+                   why="dropping or re-ordering values in the constructor (e.g. discarding negative numbers) makes IterationFilter(-1) - the events outside every profiler step - select nothing")
+    chk.floor(rule, 12)
